@@ -330,6 +330,18 @@ def gen_big_oracle_only(rng, tier, kind):
         else:
             lines.append("basins")
         out.append(("ob_%shuge%d" % (kind, k), lines))
+    # a "coast": more than 65536 base-level nodes handed to set_base_levels (every sea node of a
+    # coastal raster), so that the root basin of the spanning tree has more than 65536 tree edges
+    rows, cols, sea = 300, 230, 220
+    g = gen.Grid("raster", rows=rows, cols=cols, dy=1.0, dx=1.0, conn="queen", borders=["c", "c", "c", "c"], cache=True, ov=[])
+    z = [0.0 if (i % cols) < sea else 1.0 + rng.random() for i in range(rows * cols)]
+    base = [i for i in range(rows * cols) if (i % cols) < sea]
+    ops = ["single"] if kind == "bgraph" else rng.choice([["single", "mst:k:carve"], ["single", "mst:b:basic"]])
+    lines = [g.line(), "graph " + " ".join(ops), "set_base " + " ".join(map(str, base)), "update " + gen.hexes(z)]
+    if kind == "bgraph":
+        lines.append("bgraph k " + gen.hexes(z))
+        lines.append("bgraph b " + gen.hexes(z))
+    out.append(("ob_%scoast" % kind, lines))
     return out
 
 
